@@ -8,7 +8,6 @@ From RV Require Import Base.Prelude Base.IdSet Base.IdSetProofs M.ConfChange
 From Coq Require Import Permutation.
 
 Local Open Scope N_scope.
-Set Default Timeout 120.
 
 Ltac splits := repeat match goal with |- _ /\ _ => split end.
 
